@@ -1853,7 +1853,10 @@ func (sc *serverConn) writeLoop() {
 	buffered := 0
 
 	send := func(fr *FrameHeader) error {
-		_, err := fr.WriteTo(sc.bw)
+		// A header block goes out in frames every peer must accept, like the
+		// DATA frames of sendData. This loop is the only writer, so the frames
+		// of one block stay together whatever else has been queued meanwhile.
+		err := writeHeaderBlock(sc.bw, fr, maxDataFrameSize)
 		if err == nil && (len(sc.writer) == 0 || buffered > 10) {
 			err = sc.bw.Flush()
 			buffered = 0
